@@ -245,6 +245,12 @@ def explore(prop, tier, seed, jobs):
             agg['shard_wall_max'] = max(agg['shard_wall_max'], r['wall'])
             if r['harness_error']:
                 agg['harness_errors'].append(r['harness_error'])
+            if os.environ.get('VERIF_FAIL_FAST') and agg['nunknown'] > 0:
+                # mutation-analysis mode only (tools/mutation_run.py): stop at the first unexplained failure
+                agg['stopped_early'] = True
+                if pool is not None:
+                    pool.terminate()
+                break
     finally:
         if pool is not None:
             pool.close()
